@@ -429,8 +429,9 @@ Lemma subst_gate_spec c ps qs : subst_gate c ps qs = spec_gate c ps qs.
 Proof. unfold subst_gate, spec_gate. apply map_ext. intro i. apply subst_gate_instr_spec. Qed.
 
 (** the named class of the open finding [measure-calibration-target-uses]: the calibration's body
-    uses its formal target name somewhere other than as the target of a CAPTURE or the text of a
-    LOAD-MEMORY pragma *)
+    uses its formal target name somewhere other than as the target of a CAPTURE or as the whole
+    text of a LOAD-MEMORY pragma (i.e. in an expression, a MEASURE / RAW-CAPTURE / MOVE / LOAD
+    operand, or as the printed reference [name[i]] in a LOAD-MEMORY pragma) *)
 Definition memref_named (f : N) (m : memref) : bool := N.eqb (fst m) f.
 
 Definition target_elsewhere (f : N) (i : instr) : bool :=
@@ -439,7 +440,8 @@ Definition target_elsewhere (f : N) (i : instr) : bool :=
   | IMeasure _ _ (Some m) => memref_named f m
   | IRawCapture _ _ _ m => memref_named f m
   | IMove d s => memref_named f d || match s with ORef m => memref_named f m | OInt _ => false end
-  | ILoad d _ o => memref_named f d || memref_named f o
+  | ILoad d s o => memref_named f d || N.eqb s f || memref_named f o
+  | IPragma nm _ (Some (PRef m)) => N.eqb nm load_memory && memref_named f m
   | _ => false
   end.
 
@@ -505,7 +507,8 @@ Proof.
   - reflexivity.
   - cbn. unfold memref_named in *. rewrite H0. reflexivity.
   - cbn. unfold memref_named in *. rewrite H0, H1. reflexivity.
-  - cbn. unfold memref_named in *. rewrite H0, H1. reflexivity.
+  - cbn. unfold memref_named in *.
+    repeat match goal with H : (_ =? _)%N = false |- _ => rewrite H; clear H end. reflexivity.
   - reflexivity.
   - cbn. destruct (N.eqb nm load_memory); cbn; [|reflexivity].
     destruct data as [[n|m]|]; cbn; try reflexivity.
@@ -1436,5 +1439,235 @@ Proof.
       + destruct Hj as [<-|[]]. apply Hc. left. reflexivity.
       + eapply (proj1 (Expands_closed_mut cs Hs)); eauto. apply Hc. left. reflexivity.
     - eapply IH; eauto. intros y Hy. apply Hc. right. exact Hy. }
+  eapply G; eauto.
+Qed.
+
+(** * Part H: no use of a formal target name survives *)
+
+Definition direct_regions (i : instr) : list N :=
+  match i with
+  | IMeasure _ _ (Some m) => [fst m]
+  | ICapture _ _ m _ => [fst m]
+  | IRawCapture _ _ _ m => [fst m]
+  | IMove d (ORef m) => [fst d; fst m]
+  | IMove d (OInt _) => [fst d]
+  | ILoad d s o => [fst d; s; fst o]
+  | IPragma nm _ (Some (PName n)) => if N.eqb nm load_memory then [n] else []
+  | IPragma nm _ (Some (PRef m)) => if N.eqb nm load_memory then [fst m] else []
+  | _ => []
+  end.
+
+Lemma instr_regions_eq i :
+  instr_regions i = map fst (flat_map expr_memrefs (instr_exprs i)) ++ direct_regions i.
+Proof. reflexivity. Qed.
+
+Lemma mentions_none_iff fs i :
+  mentions_none fs i = true <-> forall r, In r (instr_regions i) -> ~ In r fs.
+Proof.
+  unfold mentions_none. rewrite negb_true_iff, existsb_false_forall. split.
+  - intros H r Hr Hf. specialize (H r Hr). unfold memN in H. rewrite existsb_false_forall in H.
+    specialize (H r Hf). rewrite N.eqb_refl in H. discriminate.
+  - intros H r Hr. destruct (memN r fs) eqn:E; [|reflexivity]. apply memN_In in E. exfalso. eapply H; eauto.
+Qed.
+
+Lemma esub_memrefs pm e m :
+  In m (expr_memrefs (esub pm e)) ->
+  In m (expr_memrefs e) \/ exists v x, In (v, x) pm /\ In m (expr_memrefs x).
+Proof.
+  induction e; cbn; intro H; auto.
+  - destruct (assoc_last v pm) as [x|] eqn:E; cbn in H; [|contradiction].
+    right. exists v, x. split; [apply assoc_last_In; exact E | exact H].
+  - apply in_app_or in H. destruct H as [H|H]; [apply IHe1 in H | apply IHe2 in H];
+      (destruct H; [left; apply in_or_app; auto | right; auto]).
+Qed.
+
+Lemma subst_direct fq fe i : direct_regions (subst_exprs fe (subst_qubits fq i)) = direct_regions i.
+Proof.
+  destruct i as [nm ps qs|mn q t|[q|]|qs|qs fs d|b f w|b f m w|b f d m|k f e|f g|d s|d s o|nm ty ln|nm args data|k];
+    reflexivity.
+Qed.
+
+Lemma subst_qubits_exprs fq i : instr_exprs (subst_qubits fq i) = instr_exprs i.
+Proof.
+  destruct i as [nm ps qs|mn q t|[q|]|qs|qs fs d|b f w|b f m w|b f d m|k f e|f g|d s|d s o|nm ty ln|nm args data|k];
+    reflexivity.
+Qed.
+
+Lemma subst_qubits_direct fq i : direct_regions (subst_qubits fq i) = direct_regions i.
+Proof.
+  destruct i as [nm ps qs|mn q t|[q|]|qs|qs fs d|b f w|b f m w|b f d m|k f e|f g|d s|d s o|nm ty ln|nm args data|k];
+    reflexivity.
+Qed.
+
+Lemma subst_gate_no_formal fs c nm ps qs :
+  (forall b, In b (gc_body c) -> mentions_none fs b = true) ->
+  mentions_none fs (IGate nm ps qs) = true ->
+  forall j, In j (subst_gate c ps qs) -> mentions_none fs j = true.
+Proof.
+  intros Hb Hg j Hj. unfold subst_gate in Hj. apply in_map_iff in Hj. destruct Hj as [b [<- Hin]].
+  specialize (Hb b Hin). rewrite mentions_none_iff in *. intros r Hr.
+  rewrite instr_regions_eq, subst_direct, subst_instr_exprs in Hr. apply in_app_or in Hr. destruct Hr as [Hr|Hr].
+  - apply in_map_iff in Hr. destruct Hr as [m [<- Hm]]. apply in_flat_map in Hm. destruct Hm as [e [He Hm]].
+    apply in_map_iff in He. destruct He as [e0 [<- He0]]. apply esub_memrefs in Hm. destruct Hm as [Hm|[v [x [Hx Hm]]]].
+    + apply Hb. rewrite instr_regions_eq. apply in_or_app. left. apply in_map. apply in_flat_map. eauto.
+    + apply Hg. rewrite instr_regions_eq. apply in_or_app. left. apply in_map. apply in_flat_map.
+      exists x. split; [|exact Hm]. cbn. eapply param_bindings_In. exact Hx.
+  - apply Hb. rewrite instr_regions_eq. apply in_or_app. right. exact Hr.
+Qed.
+
+
+Lemma retarget_direct_some f tm i r :
+  In r (direct_regions (retarget (Some f) (Some tm) i)) ->
+  r = fst tm \/ (In r (direct_regions i) /\ (r <> f \/ target_elsewhere f i = true)).
+Proof.
+  intro H.
+  destruct (N.eq_dec r (fst tm)) as [Ht|Ht]; [left; exact Ht | right].
+  assert (Hin : In r (direct_regions i)).
+  { destruct i as [nm ps qs|mn q t|[q|]|qs|qs fs d|b fr w|b fr m w|b fr d m|k fr e|fr g|d s|d s o|nm ty ln|nm args data|k];
+      cbn [retarget] in H; try exact H.
+    - destruct (N.eqb (fst m) f); [cbn in H; destruct H as [H|[]]; congruence | exact H].
+    - destruct (N.eqb nm load_memory) eqn:En; cbn [andb] in H; [|exact H].
+      destruct data as [[n|m]|]; cbn in H |- *; rewrite ?En in *; try exact H.
+      destruct (N.eqb n f); cbn in H; rewrite ?En in H; [destruct H as [H|[]]; congruence | exact H]. }
+  split; [exact Hin|].
+  destruct (N.eq_dec r f) as [->|Hn]; [right | left; exact Hn].
+  unfold target_elsewhere, memref_named.
+  destruct i as [nm ps qs|mn q t|[q|]|qs|qs fs d|b fr w|b fr m w|b fr d m|k fr e|fr g|d s|d s o|nm ty ln|nm args data|k];
+    cbn in Hin; try contradiction.
+  - destruct t as [m|]; cbn in Hin; [|contradiction]. destruct Hin as [->|[]]. rewrite N.eqb_refl. apply orb_true_r.
+  - (* capture: the retargeted instruction no longer mentions f *)
+    destruct Hin as [E|[]]. cbn [retarget] in H. rewrite E, N.eqb_refl in H. cbn in H. destruct H as [H|[]]. congruence.
+  - destruct Hin as [->|[]]. rewrite N.eqb_refl. apply orb_true_r.
+  - destruct s as [z|m]; cbn in Hin.
+    + destruct Hin as [->|[]]. rewrite N.eqb_refl. apply orb_true_r.
+    + destruct Hin as [->|[->|[]]]; rewrite N.eqb_refl; rewrite ?orb_true_r; reflexivity.
+  - destruct Hin as [->|[->|[->|[]]]]; rewrite N.eqb_refl; rewrite ?orb_true_r; reflexivity.
+  - destruct (N.eqb nm load_memory) eqn:En.
+    + destruct data as [[n|m]|]; cbn in Hin; try contradiction.
+      * destruct Hin as [->|[]]. cbn [retarget] in H. rewrite En in H. cbn in H. rewrite N.eqb_refl in H.
+        cbn in H. rewrite En in H. destruct H as [H|[]]. congruence.
+      * destruct Hin as [->|[]]. rewrite N.eqb_refl, ?En. cbn. rewrite ?orb_true_r. reflexivity.
+    + destruct data as [[n|m]|]; cbn in Hin; contradiction.
+Qed.
+
+Lemma target_elsewhere_subst_qubits f fq i : target_elsewhere f (subst_qubits fq i) = target_elsewhere f i.
+Proof.
+  unfold target_elsewhere. rewrite subst_qubits_exprs.
+  destruct i as [nm ps qs|mn q t|[q|]|qs|qs fs d|b fr w|b fr m w|b fr d m|k fr e|fr g|d s|d s o|nm ty ln|nm args data|k];
+    reflexivity.
+Qed.
+
+Lemma retarget_none formal i : retarget formal None i = i.
+Proof.
+  destruct i; cbn; try reflexivity.
+  destruct (N.eqb nm load_memory && option_eqb pdata_eqb data (option_map PName formal)); reflexivity.
+Qed.
+
+Lemma subst_meas_no_formal fs c mn q t :
+  (forall b, In b (mc_body c) -> forall r, In r (instr_regions b) -> ~ In r fs \/ Some r = mc_target c) ->
+  Known_measure_target_uses c = false ->
+  Bool.eqb (is_some t) (is_some (mc_target c)) = true ->
+  mentions_none fs (IMeasure mn q t) = true ->
+  forall j, In j (subst_meas c q t) -> mentions_none fs j = true.
+Proof.
+  intros Hp Hk Hb Hm j Hj. unfold subst_meas in Hj. apply in_map_iff in Hj. destruct Hj as [b [<- Hin]].
+  specialize (Hp b Hin). rewrite mentions_none_iff in *. unfold Known_measure_target_uses in Hk.
+  destruct (mc_target c) as [f|] eqn:Hf; destruct t as [tm|]; cbn in Hb; try discriminate.
+  - assert (Hte : target_elsewhere f b = false).
+    { rewrite existsb_false_forall in Hk. apply Hk. exact Hin. }
+    intros r Hr. rewrite instr_regions_eq, retarget_exprs, subst_qubits_exprs in Hr.
+    apply in_app_or in Hr. destruct Hr as [Hr|Hr].
+    + destruct (Hp r) as [Hn|He]; [rewrite instr_regions_eq; apply in_or_app; left; exact Hr | exact Hn |].
+      inversion He; subst r. exfalso.
+      apply in_map_iff in Hr. destruct Hr as [m [Em Hm']].
+      assert (existsb (memref_named f) (flat_map expr_memrefs (instr_exprs b)) = true).
+      { apply existsb_exists. exists m. split; [exact Hm' | unfold memref_named; rewrite Em; apply N.eqb_refl]. }
+      unfold target_elsewhere in Hte. rewrite H in Hte. discriminate.
+    + apply retarget_direct_some in Hr. destruct Hr as [->|[Hd Hor]].
+      * apply Hm. cbn. left. reflexivity.
+      * rewrite subst_qubits_direct in Hd. rewrite target_elsewhere_subst_qubits in Hor.
+        destruct (Hp r) as [Hn|He]; [rewrite instr_regions_eq; apply in_or_app; right; exact Hd | exact Hn |].
+        inversion He; subst r. destruct Hor as [Hor|Hor]; [congruence | congruence].
+  - rewrite retarget_none. intros r Hr.
+    rewrite instr_regions_eq, subst_qubits_exprs, subst_qubits_direct, <- instr_regions_eq in Hr.
+    destruct (Hp r Hr) as [Hn|He]; [exact Hn | discriminate].
+Qed.
+
+Lemma formals_private_gcal cs p c b :
+  formals_private cs p = true -> In c (gcals cs) -> In b (gc_body c) -> mentions_none (formals cs) b = true.
+Proof.
+  unfold formals_private. rewrite !andb_true_iff. intros [[[_ _] Hg] _] Hc Hb.
+  rewrite forallb_forall in Hg. specialize (Hg c Hc). rewrite forallb_forall in Hg. auto.
+Qed.
+
+Lemma formals_private_mcal cs p c b r :
+  formals_private cs p = true -> In c (mcals cs) -> In b (mc_body c) -> In r (instr_regions b) ->
+  ~ In r (formals cs) \/ Some r = mc_target c.
+Proof.
+  unfold formals_private. rewrite !andb_true_iff. intros [_ Hm] Hc Hb Hr.
+  rewrite forallb_forall in Hm. specialize (Hm c Hc). rewrite forallb_forall in Hm. specialize (Hm b Hb).
+  rewrite forallb_forall in Hm. specialize (Hm r Hr). apply orb_true_iff in Hm. destruct Hm as [Hm|Hm].
+  - left. intro Hf. apply negb_true_iff in Hm. unfold memN in Hm. rewrite existsb_false_forall in Hm.
+    specialize (Hm r Hf). rewrite N.eqb_refl in Hm. discriminate.
+  - right. apply (option_eqb_spec N.eqb N_eqb_spec) in Hm. exact Hm.
+Qed.
+
+Lemma instantiate_no_formal cs p i body src :
+  formals_private cs p = true -> cals_clean cs = true ->
+  mentions_none (formals cs) i = true -> instantiate cs i = Some (body, src) ->
+  forall j, In j body -> mentions_none (formals cs) j = true.
+Proof.
+  intros Hp Hc Hm Hi. destruct i; cbn in Hi; try discriminate.
+  - destruct (gate_match (gcals cs) nm ps qs) as [c|] eqn:E; [|discriminate]. inversion Hi; subst.
+    apply gate_match_in in E. destruct E as [Hin _]. eapply subst_gate_no_formal; eauto.
+    intros b Hb. eapply formals_private_gcal; eauto.
+  - destruct (meas_match (mcals cs) mn q t) as [c|] eqn:E; [|discriminate]. inversion Hi; subst.
+    apply meas_match_applicable in E. destruct E as [Hin Ha].
+    unfold mcal_applicable in Ha. apply andb_true_iff in Ha. destruct Ha as [_ Ha].
+    unfold cals_clean in Hc. rewrite forallb_forall in Hc. specialize (Hc c Hin). apply negb_true_iff in Hc.
+    eapply subst_meas_no_formal; eauto.
+    intros b Hb r Hr. eapply formals_private_mcal; eauto.
+Qed.
+
+Lemma Expands_no_formal_mut cs p :
+  formals_private cs p = true -> cals_clean cs = true ->
+  (forall path i r, Expands (instantiate cs) path i r ->
+     mentions_none (formals cs) i = true ->
+     forall out, r = Some out -> forall j, In j out -> mentions_none (formals cs) j = true) /\
+  (forall path l out, ExpandsList (instantiate cs) path l out ->
+     (forall j, In j l -> mentions_none (formals cs) j = true) ->
+     forall j, In j out -> mentions_none (formals cs) j = true).
+Proof.
+  intros Hp Hc. apply Expands_mutind.
+  - intros; discriminate.
+  - intros path i body src out _ Hi _ IH Hm out' E j Hj. inversion E; subst.
+    apply IH; auto. eapply instantiate_no_formal; eauto.
+  - intros path _ j [].
+  - intros path j t r _ _ _ IH Hl x [<-|Hx]; [apply Hl; left; reflexivity|].
+    apply IH; auto. intros y Hy. apply Hl. right. exact Hy.
+  - intros path j o t r _ IH1 _ IH2 Hl x Hx. apply in_app_or in Hx. destruct Hx as [Hx|Hx].
+    + eapply IH1; eauto. apply Hl. left. reflexivity.
+    + apply IH2; auto. intros y Hy. apply Hl. right. exact Hy.
+Qed.
+
+Lemma expand_program_no_formal cs fuel p p' :
+  formals_private cs p = true -> cals_clean cs = true ->
+  expand_program (instantiate cs) fuel p = Ok p' ->
+  forall j, In j (body p') -> mentions_none (formals cs) j = true.
+Proof.
+  intros Hp Hc H. pose proof Hp as Hp'. unfold formals_private in Hp'. rewrite !andb_true_iff in Hp'.
+  destruct Hp' as [[[_ Hbody] _] _]. rewrite forallb_forall in Hbody.
+  apply expand_program_spec in H. destruct H as [outs [HF [Hb _]]]. rewrite Hb.
+  intros j Hj. apply filter_In in Hj. destruct Hj as [Hj _]. apply in_concat in Hj.
+  destruct Hj as [o [Ho Hjo]].
+  assert (G : forall src outs, Forall2 (ExpandsTop (instantiate cs)) src outs ->
+              (forall i, In i src -> mentions_none (formals cs) i = true) ->
+              forall o, In o outs -> forall j, In j o -> mentions_none (formals cs) j = true).
+  { clear - Hp Hc. induction 1 as [|i o src outs Hi _ IH]; intros Hm o' Ho' j Hj; [destruct Ho'|].
+    destruct Ho' as [<-|Ho'].
+    - destruct Hi as [Hi|o Hi].
+      + destruct Hj as [<-|[]]. apply Hm. left. reflexivity.
+      + eapply (proj1 (Expands_no_formal_mut cs p Hp Hc)); eauto. apply Hm. left. reflexivity.
+    - eapply IH; eauto. intros y Hy. apply Hm. right. exact Hy. }
   eapply G; eauto.
 Qed.
